@@ -30,20 +30,20 @@ type track struct {
 
 // run is one simulated (or replayed) hand with its oracles.
 type run struct {
-	cfg      *Cfg
-	srv      *server
-	res      *sim.Result
-	opt      sim.Options
-	on       func(string) bool
-	thorough bool
-	replay   bool
-	tr       track
-	steps    []sim.Step
-	dead     bool
-	n        int
+	cfg       *Cfg
+	srv       *server
+	res       *sim.Result
+	opt       sim.Options
+	on        func(string) bool
+	thorough  bool
+	replay    bool
+	tr        track
+	steps     []sim.Step
+	dead      bool
+	n         int
 	seenState map[uint64]int
-	seenT    map[uint64]bool
-	seenS    map[uint64]bool
+	seenT     map[uint64]bool
+	seenS     map[uint64]bool
 }
 
 func newRun(cfg *Cfg, opt sim.Options, replay bool) *run {
